@@ -218,5 +218,68 @@ def shrink(sc, run, want, max_runs=600, prop=None):
     return best, max_runs - budget[0]
 
 
+def minimise_schedule(sc, run, want, prop=None, max_runs=120):
+    """Replace seeded scheduler specs by the explicit list of decisions they
+    produced and remove context switches while the violation persists.
+
+    The result is a replay file whose schedule is a plain trace: thread id
+    chosen at each decision point (a decision point is a yield point with more
+    than one runnable thread)."""
+    budget = [max_runs]
+
+    def attempt(cand):
+        if budget[0] <= 0:
+            return None
+        budget[0] -= 1
+        try:
+            res = run(cand)
+        except Exception:
+            return None
+        return res if vkey(res, prop) == want else None
+
+    steps = [i for i, st in enumerate(sc['steps']) if st.get('sched')]
+    if not steps:
+        return sc, 0
+    res = attempt(sc)
+    if res is None:
+        return sc, max_runs - budget[0]
+    choices = res.get('sched_choices') or {}
+    best = copy.deepcopy(sc)
+    for i in steps:
+        if i in choices and not best['steps'][i]['sched'].get('line'):
+            best['steps'][i]['sched'] = {'policy': 'choices',
+                                         'choices': list(choices[i])}
+    if attempt(best) is None:
+        return sc, max_runs - budget[0]
+    for i in steps:
+        spec = best['steps'][i]['sched']
+        if spec.get('policy') != 'choices':
+            continue
+        # drop the tail, then remove switches one at a time
+        L = spec['choices']
+        while L:
+            cand = copy.deepcopy(best)
+            cand['steps'][i]['sched']['choices'] = L[:len(L) // 2]
+            if attempt(cand) is None:
+                break
+            best = cand
+            L = best['steps'][i]['sched']['choices']
+        j = 1
+        while j < len(best['steps'][i]['sched']['choices']) and budget[0] > 0:
+            L = best['steps'][i]['sched']['choices']
+            if L[j] != L[j - 1]:
+                cand = copy.deepcopy(best)
+                cl = cand['steps'][i]['sched']['choices']
+                k = j
+                while k < len(cl) and cl[k] == L[j]:
+                    cl[k] = L[j - 1]
+                    k += 1
+                if attempt(cand) is not None:
+                    best = cand
+                    continue
+            j += 1
+    return best, max_runs - budget[0]
+
+
 def scenario_size(sc):
     return len(json.dumps(sc))
